@@ -204,7 +204,7 @@ Theorem bare_end_in_block s n ends c x r :
   exists s', step s n (TEnd true ends) = Ok s' /\ errs s' = errs s ++ [(Some n, s_sline x)].
 Proof.
   intros HI Hc Hx Hr Hreq Hsel Hnone.
-  unfold step. rewrite Hr. unfold cur_kind, kind_at. rewrite Hc, Hx. cbn [option_map].
+  unfold step, step_end. rewrite Hr. unfold cur_kind, kind_at. rewrite Hc, Hx. cbn [option_map].
   rewrite Hreq, Hsel. cbn [andb orb].
   assert (Hn : (match none_s s with Some m => c =? m | None => false end) = false).
   { destruct (none_s s) as [m|] eqn:E; [|reflexivity]. apply Nat.eqb_neq. apply Hnone. reflexivity. }
